@@ -55,6 +55,25 @@ func (w *Adv) Rejected(kind string, tag string) (head *entry.Entry, forbidden []
 			head, err = Forge(w.B.Peer.API(), ForgeSpec{LogID: w.Addr, Payload: addPayload(name), Time: 2, Signer: w.B.DB.Identity(), Next: []cid.Cid{n1.Hash}})
 		}
 		forbidden, sender = []*entry.Entry{n1}, w.B
+	case "aliaslink", "junklink": // an authorised colluder's valid entry whose link cannot be followed to a genuine entry
+		// aliaslink: the link names a genuine entry of A under another codec (same digest): what is fetched does
+		// not hash to the requested address. junklink: the link names a block that is not an entry (the manifest).
+		var a0 *entry.Entry
+		a0, err = w.Write(w.SA, name+".target")
+		if err == nil {
+			link := cid.NewCidV1(cid.Raw, a0.Hash.Hash())
+			if kind == "junklink" {
+				link = w.SA.Address().GetRoot()
+			}
+			head, err = Forge(w.B.Peer.API(), ForgeSpec{LogID: w.Addr, Payload: addPayload(name), Time: a0.Clock.GetTime() + 1, Signer: w.B.DB.Identity(), Next: []cid.Cid{link}})
+			if err == nil {
+				ghost := *a0
+				ghost.Hash = link
+				w.Names[link.String()] = name + ".link"
+				forbidden = []*entry.Entry{&ghost}
+			}
+		}
+		sender = w.B
 	default:
 		err = fmt.Errorf("unknown rejected kind %q", kind)
 	}
@@ -113,14 +132,21 @@ type C10Arg struct {
 	Bound  int
 	Shards int
 	Shard  int
+	// Conc > 0: the victim is built by the store constructor (simple access controller carrying the write
+	// list) with this replication concurrency, so that a single leaked fetch slot is observable
+	Conc uint
 }
 
 func (a C10Arg) Name() string {
-	return fmt.Sprintf("rejected/%s/valid-%s/%s/%s/dev%d", a.Kind, a.Valid, a.Layout, a.Route, a.Bound)
+	c := ""
+	if a.Conc > 0 {
+		c = fmt.Sprintf("/concurrency%d", a.Conc)
+	}
+	return fmt.Sprintf("rejected/%s/valid-%s/%s/%s/dev%d%s", a.Kind, a.Valid, a.Layout, a.Route, a.Bound, c)
 }
 
 func NewC10World(a C10Arg) (*C10World, error) {
-	adv, err := NewAdv(AdvOptions{Kind: "eventlog", Writers: []string{"A", "B"}})
+	adv, err := NewAdv(AdvOptions{Kind: "eventlog", Writers: []string{"A", "B"}, SimpleDirect: a.Conc > 0, Concurrency: a.Conc})
 	if err != nil {
 		return nil, err
 	}
@@ -277,11 +303,11 @@ func (w *C10World) Close() {
 }
 
 func init() {
-	kinds := []string{"nonwriter", "forged", "foreign", "wronghash", "badancestor"}
+	kinds := []string{"nonwriter", "forged", "foreign", "wronghash", "badancestor", "aliaslink", "junklink"}
 	routes := []string{"sync", "topic", "direct"}
 	explore.Register(&explore.CheckDef{
 		ID: "C10", Level: "model_checking",
-		Rule: "for every rejected-head kind {non-writer author, writer's identity block with foreign key, entry of another database, wrong claimed hash, unauthorised ancestor behind an authorised colluder's head} x valid heads {one head with ancestor, two heads} x layout {rejected first/middle/last in one announcement, two announcements in either order} x route {sync, topic, direct channel}: all completion orders of the victim's block fetches (every fetch gated; all schedules, deviation bound in evidence), then an honest re-announcement of the valid heads and all its fetch orders; at quiescence every valid entry must be in the victim's log and view and no forbidden entry may be. Non-trivial = executions with at least one deviation from the canonical fetch order.",
+		Rule: "for every rejected-head kind {non-writer author, writer's identity block with foreign key, entry of another database, wrong claimed hash, unauthorised ancestor behind an authorised colluder's head, colluder's head whose link is a same-digest alias of a genuine entry or names a block that is no entry} (each also against a victim with a single fetch slot, route sync) x valid heads {one head with ancestor, two heads} x layout {rejected first/middle/last in one announcement, two announcements in either order} x route {sync, topic, direct channel}: all completion orders of the victim's block fetches (every fetch gated; all schedules, deviation bound in evidence), then an honest re-announcement of the valid heads and all its fetch orders; at quiescence every valid entry must be in the victim's log and view and no forbidden entry may be. Non-trivial = executions with at least one deviation from the canonical fetch order.",
 		Units: func(tier string) []explore.Unit {
 			var u []explore.Unit
 			bound := 2
@@ -300,6 +326,10 @@ func init() {
 							b, _ := json.Marshal(a)
 							u = append(u, explore.Unit{Name: a.Name(), Arg: string(b)})
 						}
+						// one fetch slot: anything a rejected head leaves behind in the replicator blocks the next fetch
+						a := C10Arg{Kind: k, Valid: v, Layout: l, Route: "sync", Bound: bound, Conc: 1}
+						b, _ := json.Marshal(a)
+						u = append(u, explore.Unit{Name: a.Name(), Arg: string(b)})
 					}
 				}
 			}
